@@ -52,6 +52,75 @@ def check_best_of(p0: bool, s0: int, e0: int, p1: bool, s1: int, e1: int, p2: bo
     return got is not None and got.adapter is stubs[want] and all(st.calls == [seq] for st in stubs)
 
 
+# ---------------------------------------------------------------------------- order is kept when no index is built
+from cutadapt.adapters import SuffixAdapter, PrefixAdapter
+
+
+class _StubSuffix(SuffixAdapter):
+    """A real anchored 3' adapter (so that AdapterCutter's regrouping logic sees an index-eligible adapter) whose
+    match_to is programmed like StubAdapter's."""
+
+    def __init__(self, name, outcome):
+        SuffixAdapter.__init__(self, "ACGT", max_errors=0, indels=False, name=name)
+        self._outcome = outcome
+        self.calls = []
+
+    def match_to(self, sequence):
+        self.calls.append(sequence)
+        if self._outcome is None:
+            return None
+        from cutadapt.adapters import RemoveAfterMatch
+        kind, x, y, score, errors = self._outcome
+        n = len(sequence)
+        rstart = clamp(x, 0, n)
+        return RemoveAfterMatch(0, 4, rstart, n, score, errors, adapter=self, sequence=sequence)
+
+
+class _StubPrefix(PrefixAdapter):
+    def __init__(self, name, outcome):
+        PrefixAdapter.__init__(self, "ACGT", max_errors=0, indels=False, name=name)
+        self._outcome = outcome
+        self.calls = []
+
+    def match_to(self, sequence):
+        self.calls.append(sequence)
+        if self._outcome is None:
+            return None
+        from cutadapt.adapters import RemoveBeforeMatch
+        kind, x, y, score, errors = self._outcome
+        n = len(sequence)
+        rstop = clamp(y, 0, n)
+        return RemoveBeforeMatch(0, 4, 0, rstop, score, errors, adapter=self, sequence=sequence)
+
+
+def check_order_default_index(p0: bool, s0: int, e0: int, p1: bool, s1: int, e1: int, p2: bool, s2: int, e2: int) -> bool:
+    """
+    pre: 0 <= e0 <= 2 and 0 <= e1 <= 2 and 0 <= e2 <= 2
+    pre: -3 <= s0 <= 3 and -3 <= s1 <= 3 and -3 <= s2 <= 3
+    post: _
+    """
+    # AdapterCutter with its default index=True, but at most ONE adapter of each index-eligible kind: no index is
+    # built, so the best-of rule must apply to the adapters in the order given (param 'kinds' says which are anchored)
+    kinds = _PARAM.get("kinds", ("suffix", "plain", "prefix"))
+    cands = [(p0, s0, e0), (p1, s1, e1), (p2, s2, e2)]
+    stubs = []
+    for i, (k, (p, s, e)) in enumerate(zip(kinds, cands)):
+        out = ("after" if k != "prefix" else "before", 1, 2, s, e) if p else None
+        if k == "suffix":
+            stubs.append(_StubSuffix("a%d" % i, out))
+        elif k == "prefix":
+            stubs.append(_StubPrefix("a%d" % i, out))
+        else:
+            stubs.append(StubAdapter("a%d" % i, [out]))
+    cutter = AdapterCutter(stubs, times=1, action="trim")          # index=True is the default
+    read = Rec("r", "ACG", "abc")
+    out, matches = cutter.match_and_trim(read)
+    want = _expected_best(cands)
+    if want is None:
+        return matches == []
+    return len(matches) == 1 and matches[0].adapter is stubs[want]
+
+
 # ---------------------------------------------------------------------------- rounds
 def _ref_rounds(seq, outcomes, times):
     """Reference: one adapter per round, each round searches what the previous one left, stop at the first miss."""
@@ -150,6 +219,8 @@ def check_linked(fp: bool, fx: int, fy: int, fs: int, fe: int, bp: bool, bx: int
 
 
 CONDITIONS = [{"name": "best_of_3", "fn": "check_best_of", "timeout": 120}]
+for _kinds in (("suffix", "plain", "prefix"), ("plain", "suffix", "plain"), ("prefix", "plain", "plain"), ("suffix", "prefix", "plain")):
+    CONDITIONS.append({"name": "order_default_index/%s" % "-".join(_kinds), "fn": "check_order_default_index", "param": {"kinds": _kinds}, "timeout": 240})
 import itertools as _it
 for _times in (1, 2, 3):
     for _action in ("trim", "mask", "lowercase", None):
